@@ -81,6 +81,7 @@ class TlcResult:
         self.out = ""
         self.wall = 0.0
         self.zero_cov = []
+        self.unparsed = False
 
 
 def run_tlc(name, module, cfg=None, workers=4, extra=None, env=None, timeout=3600, xmx=None, keep_output=True, coverage=False):
@@ -89,6 +90,52 @@ def run_tlc(name, module, cfg=None, workers=4, extra=None, env=None, timeout=360
     if cfg:
         cmd += ["-config", cfg]
     cmd += ["-workers", str(workers)]
+    if coverage:
+        cmd += ["-coverage", "1"]
+    if extra:
+        cmd += extra
+    e = {}
+    if env:
+        e.update(env)
+    if xmx:
+        e["TLC_XMX"] = "-Xmx" + xmx
+    t0 = time.time()
+    rc, o = sh(cmd, timeout=timeout, env=e)
+    r = TlcResult()
+    r.rc, r.out, r.wall = rc, o, time.time() - t0
+    # TLC pretty-prints tuples and wraps them at 80 columns, so records are matched over the whole output
+    for line in o.splitlines():
+        m = RE_STATES.match(line)
+        if m:
+            r.generated, r.distinct = int(m.group(1)), int(m.group(2))
+        if line.startswith("Error:") or "*** Errors" in line or "Exception" in line:
+            r.errors.append(line)
+        m3 = re.match(r"Error: Invariant (\S+) is violated", line)
+        if m3:
+            r.invariant = m3.group(1)
+    for m in re.finditer(r'<<\s*"REPLAY",\s*"((?:[^"\\]|\\.)*)"\s*>>', o):
+        try:
+            r.replay.append(json.loads(unescape_tla(m.group(1))))
+        except Exception as ex:
+            raise ToolError("cannot parse REPLAY record: %s: %s" % (ex, m.group(0)[:200]))
+    for m in re.finditer(r'<<\s*"VIOL",\s*(\d+),\s*"([^"]*)",\s*\{([^}]*)\}\s*>>', o):
+        tags = [t.strip().strip('"') for t in m.group(3).split(",") if t.strip()]
+        r.viol.append((int(m.group(1)), m.group(2), tags))
+    nviol_marks = len(re.findall(r'"VIOL"', o))
+    if nviol_marks != len(r.viol):
+        r.errors.append("unparsed VIOL records: %d marks, %d parsed" % (nviol_marks, len(r.viol)))
+        r.unparsed = True
+    for m in re.finditer(r'<<\s*"STATS",\s*"((?:[^"\\]|\\.)*)"\s*>>', o):
+        try:
+            r.stats = json.loads(unescape_tla(m.group(1)))
+        except Exception:
+            pass
+    m = re.search(r'<<\s*"REJECTED".*?>>', o, re.S)
+    if m:
+        r.rejected = m.group(0)
+    m = re.search(r'<<\s*"STUCK-AT".*', o, re.S)
+    if m:
+        r.stuck = m.group(0)[:600]
     if coverage:
         cmd += ["-coverage", "1"]
     if extra:
